@@ -1,5 +1,10 @@
-(* The cluster's own state: whenever the Run loop is idle the FSM is Running (whatever happened in the
-   round: factory errors, servers that never became ready, cancelled restart delays). *)
+(* The cluster's own FSM.  The model moves it through the transition table it is created with
+   (ClusterLTS.fsm_allowed = go-fsm transitions.Typical) and contains the `!IsRunning()` gate of
+   processConfigUpdate and the failure branches of its transitions (a refused map is dropped, a failed
+   return to Running forces Error).  Proved here, for every schedule and both planner variants: those
+   branches are never taken -- the FSM is Running whenever the loop is idle, Reloading inside a round,
+   Stopping inside shutdown, Stopped once Run has finished; it is never Error; a received map is never
+   dropped. *)
 From Coq Require Import List Arith NArith Bool.
 From GS Require Import LTS Cluster ClusterLTS.
 Import ListNotations.
@@ -7,30 +12,39 @@ Open Scope N_scope.
 
 Definition fsm_ok (s : state) : Prop :=
   match s_pc s with
-  | PIdle => s_fsm s = CRunning
+  | PIdle => s_fsm s = CRunning /\ s_shut s = false
   | PFin | PRet => s_fsm s = CStopped
-  | _ => True
+  | _ => s_fsm s = (if s_shut s then CStopping else CReloading)
   end.
 
-Lemma fsm_finish s p : fsm_ok (finish_round s p).
-Proof. unfold fsm_ok, finish_round. cbn [s_pc s_fsm]. destruct (s_shut s); reflexivity. Qed.
+(* a state in the middle of a round *)
+Definition in_round (s : state) : Prop := s_fsm s = (if s_shut s then CStopping else CReloading).
 
-Lemma fsm_next s p ts : fsm_ok (next_start s p ts).
-Proof. destruct ts; [apply fsm_finish|exact I]. Qed.
-
-Lemma fsm_after s p ts tp : fsm_ok (after_stops s p ts tp).
-Proof. unfold after_stops. destruct ts; [apply fsm_finish|]. destruct (s_delay s); exact I. Qed.
-
-Lemma fsm_begin s p : fsm_ok (begin_round s p).
+Lemma fsm_finish_ok s p : in_round s -> fsm_ok (finish_round s p).
 Proof.
-  unfold begin_round. destruct (pending_actions p) as [ts tp]. destruct (stop_insts p tp); [|exact I].
-  destruct tp; [apply fsm_next|apply fsm_after].
+  unfold in_round, fsm_ok, finish_round. cbn [s_pc s_fsm s_shut]. intros ->.
+  destruct (s_shut s); [reflexivity|]. split; reflexivity.
 Qed.
 
-Lemma fsm_move i s : s_pc s <> PIdle -> s_pc s <> PFin -> s_pc s <> PRet -> fsm_ok (move_to_stopping i s).
+Lemma fsm_next s p ts : in_round s -> fsm_ok (next_start s p ts).
+Proof. intros H. destruct ts; [now apply fsm_finish_ok|exact H]. Qed.
+
+Lemma fsm_after s p ts tp : in_round s -> fsm_ok (after_stops s p ts tp).
+Proof. intros H. unfold after_stops. destruct ts; [now apply fsm_finish_ok|]. destruct (s_delay s); exact H. Qed.
+
+Lemma fsm_begin s p : in_round s -> fsm_ok (begin_round s p).
 Proof.
-  intros H1 H2 H3. unfold fsm_ok, move_to_stopping. destruct (find_inst i (s_live s)); cbn [s_pc s_fsm];
-    destruct (s_pc s); try exact I; contradiction.
+  intros H. unfold begin_round. destruct (pending_actions p) as [ts tp]. destruct (stop_insts p tp); [|exact H].
+  destruct tp; [now apply fsm_next|now apply fsm_after].
+Qed.
+
+Lemma in_round_of s : fsm_ok s -> s_pc s <> PIdle -> s_pc s <> PFin -> s_pc s <> PRet -> in_round s.
+Proof. unfold fsm_ok, in_round. destruct (s_pc s); intros H H1 H2 H3; try exact H; contradiction. Qed.
+
+Lemma fsm_move i s : in_round s -> s_pc s <> PIdle -> s_pc s <> PFin -> s_pc s <> PRet -> fsm_ok (move_to_stopping i s).
+Proof.
+  intros H H1 H2 H3. unfold fsm_ok, move_to_stopping. destruct (find_inst i (s_live s)); cbn [s_pc s_fsm s_shut];
+    destruct (s_pc s); try exact H; contradiction.
 Qed.
 
 Lemma fsm_step fx s l s' : fsm_ok s -> step fx s l = Some s' -> fsm_ok s'.
@@ -41,43 +55,75 @@ Proof.
   - destruct (s_stopreq s); [|discriminate]. destruct (s_pc s) eqn:E; try discriminate; injection Hs as <-; exact H.
   - injection Hs as <-. exact H.
   - destruct (s_offer s); [discriminate|]. injection Hs as <-. exact H.
-  - destruct (s_pc s); try discriminate. destruct (s_offer s); [|discriminate].
-    destruct (is_perm ord (keys (s_entries s))); [|discriminate]. injection Hs as <-. apply fsm_begin.
-  - destruct (s_pc s); try discriminate. destruct (s_cancel s || s_stopreq s || s_closed s); [|discriminate].
-    injection Hs as <-. apply fsm_begin.
-  - destruct (s_pc s); try discriminate.
-    + destruct (memN i tocall); [|discriminate]. injection Hs as <-. apply fsm_move; discriminate.
+  - destruct (s_pc s) eqn:E; try discriminate. destruct (s_offer s); [|discriminate].
+    destruct (cstate_eqb (s_fsm s) CRunning && fsm_allowed (s_fsm s) CReloading).
+    + destruct (is_perm ord (keys (s_entries s))); [|discriminate]. injection Hs as <-. apply fsm_begin. reflexivity.
+    + injection Hs as <-. unfold fsm_ok, drop_offer in *. cbn [s_pc s_fsm s_shut]. exact H.
+  - destruct (s_pc s) eqn:E; try discriminate. destruct (s_cancel s || s_stopreq s || s_closed s); [|discriminate].
+    injection Hs as <-. apply fsm_begin. unfold in_round. cbn [s_fsm s_shut].
+    unfold fsm_ok in H. rewrite E in H. destruct H as [-> _]. reflexivity.
+  - destruct (s_pc s) eqn:E; try discriminate.
+    + destruct (memN i tocall); [|discriminate]. injection Hs as <-.
+      apply fsm_move; try discriminate. unfold in_round, fsm_ok in *. rewrite E in H. exact H.
     + destruct ((i =? i0) && (negb (beh_eqb b BReady) || s_cancel s)); [|discriminate]. injection Hs as <-.
-      apply fsm_move; discriminate.
-  - destruct (s_pc s); try discriminate.
+      apply fsm_move; try discriminate. unfold in_round, fsm_ok in *. rewrite E in H. exact H.
+  - destruct (s_pc s) eqn:E; try discriminate.
     + destruct (memN i called); [|discriminate].
-      destruct tocall, (removeN i called); injection Hs as <-; try apply fsm_after; exact I.
+      assert (R : in_round (drop_stopping i s)) by (unfold in_round, fsm_ok in *; rewrite E in H; exact H).
+      destruct tocall, (removeN i called); injection Hs as <-; try (now apply fsm_after); exact R.
     + destruct (i =? i0); [|discriminate]. injection Hs as <-. apply fsm_next.
-  - destruct (s_pc s); try discriminate. injection Hs as <-. exact I.
-  - destruct (s_pc s); try discriminate. destruct (s_cancel s); [|discriminate]. injection Hs as <-. apply fsm_finish.
-  - destruct (s_pc s); try discriminate. destruct (lookup k pend); [|discriminate].
+      unfold in_round, fsm_ok in *. rewrite E in H. exact H.
+  - destruct (s_pc s) eqn:E; try discriminate. injection Hs as <-. unfold fsm_ok in *. rewrite E in H. exact H.
+  - destruct (s_pc s) eqn:E; try discriminate. destruct (s_cancel s); [|discriminate]. injection Hs as <-.
+    apply fsm_finish_ok. unfold in_round, fsm_ok in *. rewrite E in H. exact H.
+  - destruct (s_pc s) eqn:E; try discriminate. destruct (lookup k pend); [|discriminate].
     destruct (mem_id k ts && id_eqb (e_id e) k && (e_cfg e =? c) && (i =? s_next s)); [|discriminate].
-    injection Hs as <-. exact I.
-  - destruct (s_pc s); try discriminate. destruct (lookup k pend); [|discriminate].
+    injection Hs as <-. unfold fsm_ok in *. rewrite E in H. exact H.
+  - destruct (s_pc s) eqn:E; try discriminate. destruct (lookup k pend); [|discriminate].
     destruct (mem_id k ts && id_eqb (e_id e) k && (e_cfg e =? c)); [|discriminate].
-    injection Hs as <-. apply fsm_next.
+    injection Hs as <-. apply fsm_next. unfold in_round, fsm_ok in *. rewrite E in H. exact H.
   - destruct (memN i (s_unrun s)); [|discriminate]. injection Hs as <-. exact H.
-  - destruct (s_pc s); try discriminate. destruct (beh_eqb b BReady); [|discriminate]. injection Hs as <-.
-    apply fsm_next.
+  - destruct (s_pc s) eqn:E; try discriminate. destruct (beh_eqb b BReady); [|discriminate]. injection Hs as <-.
+    apply fsm_next. unfold in_round, fsm_ok in *. rewrite E in H. exact H.
   - destruct (s_pc s) eqn:E; try discriminate; destruct (n =? N.of_nat (count (s_entries s))); try discriminate;
       injection Hs as <-; exact H.
   - destruct (cstate_eqb c (s_fsm s)); [|discriminate]. injection Hs as <-. exact H.
   - destruct (s_pc s) eqn:E; try discriminate. injection Hs as <-. unfold fsm_ok in *. rewrite E in H. exact H.
 Qed.
 
+Lemma fsm_reachable fx d ls s : run (step fx) (init d) ls = Some s -> fsm_ok s.
+Proof.
+  intros Hr. eapply (run_inv _ _ (step fx) fsm_ok); [apply fsm_step| |exact Hr]. split; reflexivity.
+Qed.
+
 Theorem idle_is_running fx d ls s :
   run (step fx) (init d) ls = Some s ->
-  (s_pc s = PIdle -> s_fsm s = CRunning) /\ (s_pc s = PFin \/ s_pc s = PRet -> s_fsm s = CStopped).
+  (s_pc s = PIdle -> s_fsm s = CRunning) /\ (s_pc s = PFin \/ s_pc s = PRet -> s_fsm s = CStopped) /\
+  s_fsm s <> CError.
 Proof.
-  intros Hr.
-  assert (H : fsm_ok s).
-  { eapply (run_inv _ _ (step fx) fsm_ok); [apply fsm_step| |exact Hr]. reflexivity. }
-  unfold fsm_ok in H. split.
-  - intros E. now rewrite E in H.
+  intros Hr. pose proof (fsm_reachable fx d ls s Hr) as H. unfold fsm_ok in H. split; [|split].
+  - intros E. rewrite E in H. apply H.
   - intros [E|E]; now rewrite E in H.
+  - destruct (s_pc s); try (destruct H as [-> _]; discriminate); try (rewrite H; destruct (s_shut s); discriminate);
+      rewrite H; discriminate.
+Qed.
+
+(* the gate and the Reloading failure branch are dead: whenever the loop is idle the guard of the
+   processing branch of LRecv holds, so a map offered on the siphon is taken into a round (it becomes
+   the round's desired map), never dropped *)
+Theorem update_never_ignored fx d ls s :
+  run (step fx) (init d) ls = Some s -> s_pc s = PIdle ->
+  cstate_eqb (s_fsm s) CRunning && fsm_allowed (s_fsm s) CReloading = true /\
+  forall m ord s', s_offer s = Some m -> step fx s (LRecv ord) = Some s' ->
+                   s_base s' = s_entries s /\ s_des s' = new_entries m /\ s_offer s' = None.
+Proof.
+  intros Hr E. pose proof (fsm_reachable fx d ls s Hr) as H. unfold fsm_ok in H. rewrite E in H. destruct H as [Hf Hsh].
+  split; [now rewrite Hf|]. intros m ord s' Ho Hs. unfold step in Hs. rewrite E, Ho, Hf in Hs.
+  cbn [cstate_eqb fsm_allowed andb] in Hs.
+  destruct (is_perm ord (keys (s_entries s))); [|discriminate]. injection Hs as <-.
+  assert (B : forall x p, s_base (begin_round x p) = s_base x /\ s_des (begin_round x p) = s_des x /\
+                          s_offer (begin_round x p) = s_offer x).
+  { intros x p. unfold begin_round. destruct (pending_actions p) as [ts tp]. destruct (stop_insts p tp); [|repeat split].
+    destruct tp; [destruct ts; repeat split|]. unfold after_stops. destruct ts; [repeat split|]. destruct (s_delay x); repeat split. }
+  apply B.
 Qed.
